@@ -24,10 +24,15 @@ type Idx struct {
 	I int   `json:"i"`
 	A AAttr `json:"a"`
 }
+type GetR struct {
+	Ok bool    `json:"ok"`
+	A  []AAttr `json:"a"`
+}
 type Out struct {
 	Len     int     `json:"len"`
 	Look    []Look  `json:"look"`
 	Iter    []Idx   `json:"iter"`
+	Get     []GetR  `json:"get"`
 	SelfEq  bool    `json:"selfEq"`
 	Bag     []AAttr `json:"bag"`
 	Dropped []AAttr `json:"dropped"`
@@ -46,10 +51,11 @@ type St struct {
 	N     int      `json:"n"`
 }
 type Act struct {
-	Op  string `json:"op"`
-	A   *AAttr `json:"a,omitempty"`
-	How string `json:"how,omitempty"`
-	P   *Pred  `json:"p,omitempty"`
+	Op    string  `json:"op"`
+	A     *AAttr  `json:"a,omitempty"`
+	How   string  `json:"how,omitempty"`
+	P     *Pred   `json:"p,omitempty"`
+	Items []AAttr `json:"items,omitempty"` // Bulk: a whole prepared slice
 }
 type edge struct {
 	From json.RawMessage `json:"from"`
@@ -98,6 +104,7 @@ func selfEqual(s *attribute.Set) bool {
 
 // observe projects a Set through every accessor the statement mentions.
 func (m *machine) observe(s *attribute.Set, nkeys int, o *Out) {
+	scribble(s.ToSlice()) // a ToSlice result is the caller's: writing to it must not reach the Set
 	o.Len = s.Len()
 	o.Look = []Look{}
 	for r := 1; r <= nkeys; r++ {
@@ -120,7 +127,38 @@ func (m *machine) observe(s *attribute.Set, nkeys int, o *Out) {
 			m.incons = append(m.incons, "Get(i) != Iterator attribute")
 		}
 	}
+	// Set.Get at every position from -1 to Len
+	o.Get = []GetR{}
+	for i := -1; i <= o.Len; i++ {
+		kv, ok := s.Get(i)
+		g := GetR{Ok: ok, A: []AAttr{}}
+		if ok {
+			g.A = append(g.A, m.km.abstract(kv))
+		} else if kv.Key != "" || kv.Value.Type() != attribute.INVALID {
+			m.incons = append(m.incons, "Get(out of range) returned a non-zero KeyValue")
+		}
+		o.Get = append(o.Get, g)
+	}
 	o.SelfEq = selfEqual(s)
+}
+
+// scribble overwrites a slice the caller owns (its input after the call, a returned list of
+// removed attributes, a ToSlice result): Sets are immutable, so no Set may change because of it.
+func scribble(kvs []attribute.KeyValue) {
+	for i := range kvs {
+		kvs[i] = attribute.String("~scribbled", "~")
+	}
+}
+
+// emptyVariant: the three documented ways of writing the empty Set.
+func emptyVariant(v int) attribute.Set {
+	switch v % 3 {
+	case 1:
+		return attribute.Set{}
+	case 2:
+		return *attribute.EmptySet()
+	}
+	return attribute.NewSet()
 }
 
 func (m *machine) project(nkeys int) St {
@@ -142,6 +180,10 @@ func (m *machine) step(a Act, nkeys int) Out {
 	switch a.Op {
 	case "Push":
 		m.pend = append(m.pend, m.km.concrete(*a.A, m.variant+len(m.pend)))
+	case "Bulk":
+		for _, it := range a.Items {
+			m.pend = append(m.pend, m.km.concrete(it, m.variant+len(m.pend)))
+		}
 	case "New":
 		if a.How == "Sortable" {
 			var tmp attribute.Sortable
@@ -150,6 +192,7 @@ func (m *machine) step(a Act, nkeys int) Out {
 			m.cur = attribute.NewSet(m.pend...)
 		}
 		o.Bag = m.km.abstractAll(m.pend) // the caller's slice after the call
+		scribble(m.pend)                 // the caller re-uses its slice; the Set must not notice
 		m.pend = nil
 	case "NewF":
 		var dropped []attribute.KeyValue
@@ -161,11 +204,14 @@ func (m *machine) step(a Act, nkeys int) Out {
 		}
 		o.Dropped = sortByKey(m.km.abstractAll(dropped))
 		o.Bag = m.km.abstractAll(m.pend)
+		scribble(m.pend)
+		scribble(dropped)
 		m.pend = nil
 	case "Filter":
 		orig := m.cur
 		kept, dropped := orig.Filter(m.km.filter(*a.P))
 		o.Dropped = sortByKey(m.km.abstractAll(dropped))
+		scribble(dropped) // the removed list belongs to the caller; neither Set may be affected
 		o.Orig = m.km.abstractAll(orig.ToSlice())
 		m.cur = kept
 	case "Merge":
@@ -182,6 +228,9 @@ func (m *machine) step(a Act, nkeys int) Out {
 		m.pend = nil
 	case "Cmp":
 		other := attribute.NewSet(append([]attribute.KeyValue{}, m.pend...)...)
+		if len(m.pend) == 0 {
+			other = emptyVariant(m.variant)
+		}
 		o.Eq = m.cur.Equals(&other)
 		if other.Equals(&m.cur) != o.Eq || (m.cur.Equivalent() == other.Equivalent()) != o.Eq {
 			m.incons = append(m.incons, "Equals not symmetric / differs from Equivalent()==")
@@ -196,7 +245,7 @@ func (m *machine) step(a Act, nkeys int) Out {
 	default:
 		panic("unknown action " + a.Op)
 	}
-	if a.Op != "Push" {
+	if a.Op != "Push" && a.Op != "Bulk" {
 		m.nops++
 	}
 	m.observe(&m.cur, nkeys, &o)
@@ -209,6 +258,18 @@ func lookEq(a, b []Look) bool {
 	}
 	for i := range a {
 		if a[i].Has != b[i].Has || !attrEq(AAttr{T: a[i].T, X: a[i].X}, AAttr{T: b[i].T, X: b[i].X}) {
+			return false
+		}
+	}
+	return true
+}
+
+func getEq(a, b []GetR) bool {
+	if len(a) != len(b) {
+		return false
+	}
+	for i := range a {
+		if a[i].Ok != b[i].Ok || !seqEq(a[i].A, b[i].A) {
 			return false
 		}
 	}
@@ -252,6 +313,7 @@ func diff(got St, gout Out, want St, wout Out, op string) []string {
 	add(gout.Len != wout.Len, "len")
 	add(!lookEq(gout.Look, wout.Look), "look")
 	add(!iterEq(gout.Iter, wout.Iter), "iter")
+	add(!getEq(gout.Get, wout.Get), "get")
 	add((op == "New" || op == "NewF") && !bagEq(gout.Bag, wout.Bag), "lost")
 	add(!seqEq(gout.Dropped, wout.Dropped), "dropped")
 	add((op == "Filter" || op == "Merge") && !seqEq(gout.Orig, wout.Orig), "orig")
@@ -384,6 +446,14 @@ func replay(args []string) {
 			}
 		}
 		res.Count("op_"+e.Act.Op, 1)
+		// vacuity per distinct-count: which array sizes did the constructors / Filter produce (real Len)
+		switch e.Act.Op {
+		case "New", "NewF", "Filter":
+			res.Count(fmt.Sprintf("size_%s_%d", e.Act.Op, gout.Len), 1)
+			if len(gout.Dropped) > 0 {
+				res.Count(fmt.Sprintf("size_%sDrop_%d", e.Act.Op, gout.Len), 1)
+			}
+		}
 		if nanAny {
 			res.Count("edges_with_nan_f64slice", 1)
 		}
